@@ -38,6 +38,7 @@ const MODELS: &[(&str, &str)] = &[
     ("G3", "3 waiters released by one dec"),
     ("X-bytes-then-msgs", "the waiter parks held back by bytes; another thread then brings the message count to its limit and only then frees the bytes; polled again after that thread was joined, the waiter is still pending (and resumes once both counts are below their limits)"),
     ("X-msgs-then-bytes", "mirror image: held back by messages; then bytes reach their limit and only then the messages are freed"),
+    ("H-huge-counts", "byte counts of several GiB and message counts near u32::MAX (values that do not fit 32 bits): 2 waiters are released exactly when both counts are below their limits, under concurrent inc/dec"),
 ];
 
 fn run_model(name: &str, pb: Option<usize>) {
@@ -171,6 +172,42 @@ fn run_model(name: &str, pb: Option<usize>) {
                 }
                 op();
                 assert!(matches!(fut.as_mut().poll(&mut cx), Poll::Ready(())), "both counts are below their limits but the waiter did not resume");
+            }
+            "H-huge-counts" => {
+                const GIB: u64 = 1 << 30;
+                // limits: 16 GiB / 3 messages; three 2 GiB messages outstanding => the message count is at its limit
+                let fc = Arc::new(flow_control::create(16 * GIB, 3));
+                for _ in 0..3 {
+                    fc.inc(2 * GIB, 1);
+                }
+                let mut hs = vec![];
+                for _ in 0..2 {
+                    let fc2 = fc.clone();
+                    hs.push(loom::thread::spawn(move || {
+                        loom::future::block_on(fc2.wait_for_available_space());
+                        op();
+                    }));
+                }
+                let fc3 = fc.clone();
+                let t = loom::thread::spawn(move || {
+                    fc3.inc(3 * GIB, 0); // 9 GiB, still 3 messages
+                    op();
+                });
+                fc.dec(2 * GIB, 1); // 2 of 3 messages, bytes well below 16 GiB: both waiters must be released
+                op();
+                for h in hs {
+                    h.join().unwrap();
+                }
+                t.join().unwrap();
+                // and the other way round: 6 GiB outstanding with a 5 GiB limit is NOT available space
+                let fc = Arc::new(flow_control::create(5 * GIB, u32::MAX as u64 + 10));
+                fc.inc(6 * GIB, u32::MAX as u64 + 1);
+                let fc4 = fc.clone();
+                let mut fut = Box::pin(async move { fc4.wait_for_available_space().await });
+                let mut cx = Context::from_waker(Waker::noop());
+                assert!(matches!(fut.as_mut().poll(&mut cx), Poll::Pending), "6 GiB outstanding with a limit of 5 GiB, yet the waiter resumed");
+                fc.dec(2 * GIB, 0);
+                assert!(matches!(fut.as_mut().poll(&mut cx), Poll::Ready(())), "4 GiB of 5 GiB and fewer messages than the limit outstanding, but the waiter did not resume");
             }
             other => panic!("unknown model {}", other),
         }
@@ -339,9 +376,9 @@ fn check(tier: &str) -> i32 {
     let thorough = tier == "thorough";
     // (model, preemption bound, wall cap s)
     let plan: Vec<(&str, usize, u64)> = if thorough {
-        vec![("A1", 6, 900), ("A2", 3, 1500), ("C2", 5, 900), ("F1", 6, 900), ("B-bytes-stay-full", 6, 600), ("B-msgs-stay-full", 6, 600), ("G3", 3, 1500), ("X-bytes-then-msgs", 6, 600), ("X-msgs-then-bytes", 6, 600)]
+        vec![("A1", 6, 900), ("A2", 3, 1500), ("C2", 5, 900), ("F1", 6, 900), ("B-bytes-stay-full", 6, 600), ("B-msgs-stay-full", 6, 600), ("G3", 3, 1500), ("X-bytes-then-msgs", 6, 600), ("X-msgs-then-bytes", 6, 600), ("H-huge-counts", 4, 900)]
     } else {
-        vec![("A1", 3, 120), ("A2", 2, 120), ("C2", 3, 120), ("F1", 3, 120), ("B-bytes-stay-full", 3, 120), ("B-msgs-stay-full", 3, 120), ("G3", 2, 120), ("X-bytes-then-msgs", 3, 120), ("X-msgs-then-bytes", 3, 120)]
+        vec![("A1", 3, 120), ("A2", 2, 120), ("C2", 3, 120), ("F1", 3, 120), ("B-bytes-stay-full", 3, 120), ("B-msgs-stay-full", 3, 120), ("G3", 2, 120), ("X-bytes-then-msgs", 3, 120), ("X-msgs-then-bytes", 3, 120), ("H-huge-counts", 2, 120)]
     };
     let mut units = vec![];
     let (mut iters, mut ops, mut violations, mut known_hits) = (0u64, 0u64, 0u64, 0u64);
